@@ -33,6 +33,7 @@ def run(rep, tier):
     bounding_rect(rep, F)
     extremes(rep, F)
     bbox_tables(rep, F)
+    traversal_tables(rep, F)
     lines_rule(rep, F)
     map_rule(rep, F)
     error_discipline(rep, F)
@@ -476,6 +477,130 @@ def bbox_tables(rep, F, rule="R19.8", only=None):
         rep.bad(rule, "Rect:anchor", str(e))
     if not only:
         rep.floor(rule, "bounding-box tables", n_ok, 17)
+
+
+def traversal_tables(rep, F, rule="R19.9"):
+    """coords_iter / exterior_coords_iter / coords_count on concrete shapes, empty members included: the iterators are drained step by step
+    (helper iterator structs through their own `next`, member calls resolved by the member's concrete type) and compared with the expected
+    coordinate sequence: every coordinate in part order for coords_iter, only the exterior rings for exterior_coords_iter, and
+    coords_count = the length of the former."""
+    from .. import citer
+    from ..symex import St
+    rep.rule(rule, "coords_iter / exterior_coords_iter / coords_count on concrete shapes (empty members in the middle included), iterators drained step by step: all coordinates in part order; exteriors only; the count equals the number of coordinates yielded")
+    CI = "geo::algorithm::coords_iter::CoordsIter"
+    ITER = "core::iter::traits::iterator::Iterator"
+    LS = GT + "line_string::LineString"
+
+    def vec(items):
+        return ("call", "vec!", (("array", tuple(items)),))
+
+    def C(n):
+        return ("opaque", n)
+
+    def ls(names):
+        return ("adt", LS, "LineString", (vec([C(n) for n in names]),))
+
+    def poly(e, hs):
+        return ("adt", GT + "polygon::Polygon", "Polygon", (ls(e), vec([ls(h) for h in hs])))
+
+    def pt(n):
+        return ("adt", GT + "point::Point", "Point", (C(n),))
+
+    def next_fn(adt):
+        for im in F.impls_of(ITER):
+            if im["self_ty"].split("<")[0] == adt and im.get("crate") in ("geo", "geo_types"):
+                return F.impl_fn(im, "next")
+        return None
+
+    def drain(val):
+        out = []
+        cur = val
+        for _ in range(64):
+            nf = next_fn(cur[1]) if cur[0] == "adt" else None
+            if nf is not None:
+                ex = Symex(F, concrete_iters=True, loop_bound=12, inline_crates=("geo", "geo_types"), max_depth=14)
+                ex.live_iter_mut = True
+                ex.resolve_by_receiver = True
+                ps = [p for p in ex.run(nf, args=[("arg", 1)], mem={("arg", 1): cur}) if p.kind != "cut"]
+                if len(ps) != 1 or ps[0].pc or ps[0].kind != "ret":
+                    raise Unanalysable("a step of %s forks / panics on a concrete shape: %s" % (short(cur[1]), [show_pc(p.pc)[:80] for p in ps][:2]))
+                p = ps[0]
+                cur = ex.canon(p.st, p.st.mem.get(("S", ("arg", 1)), cur))
+                r = p.ret
+                if r[0] != "adt":
+                    raise Unanalysable("next() does not return a concrete Option: %s" % show(r)[:80])
+                if r[2] == "None":
+                    return out
+                out.append(r[3][0])
+            else:
+                ex = Symex(F, concrete_iters=True, loop_bound=12, inline_crates=("geo", "geo_types"), max_depth=14)
+                ex.resolve_by_receiver = True
+                try:
+                    res = list(citer.step(ex, St(), cur))
+                except citer.NotConcrete as e:
+                    raise Unanalysable(str(e))
+                if len(res) != 1:
+                    raise Unanalysable("a step forks on a concrete shape")
+                st, it, cur = res[0]
+                if it is None:
+                    return out
+                out.append(ex.canon(st, it))
+        raise Unanalysable("iterator does not end")
+
+    def names(items):
+        out = []
+        for it in items:
+            m = re.findall(r"opaque\((\w+)\)(\.\w+)?", show(it))
+            out.append("".join(m[0]) if len(m) == 1 else show(it)[:40])
+        return out
+    shapes = [
+        ("Point", r"point::Point<T>$", pt("p"), ["p"], ["p"]),
+        ("Line", r"line::Line<T>$", ("adt", GT + "line::Line", "Line", (C("s"), C("e"))), ["s", "e"], ["s", "e"]),
+        ("Triangle", r"triangle::Triangle<T>$", ("adt", GT + "triangle::Triangle", "Triangle", (C("a"), C("b"), C("c"))), ["a", "b", "c"], ["a", "b", "c"]),
+        ("LineString", r"line_string::LineString<T>$", ls(["a", "b", "c"]), ["a", "b", "c"], ["a", "b", "c"]),
+        ("LineString/0", r"line_string::LineString<T>$", ls([]), [], []),
+        ("Polygon", r"polygon::Polygon<T>$", poly(["a", "b"], [["h"], [], ["i", "j"]]), ["a", "b", "h", "i", "j"], ["a", "b"]),
+        ("MultiPoint", r"multi_point::MultiPoint<T>$", ("adt", GT + "multi_point::MultiPoint", "MultiPoint", (vec([pt("p"), pt("q")]),)), ["p", "q"], ["p", "q"]),
+        ("MultiLineString", r"multi_line_string::MultiLineString<T>$", ("adt", GT + "multi_line_string::MultiLineString", "MultiLineString", (vec([ls(["a", "b"]), ls([]), ls(["c"])]),)),
+         ["a", "b", "c"], ["a", "b", "c"]),
+        ("MultiPolygon", r"multi_polygon::MultiPolygon<T>$", ("adt", GT + "multi_polygon::MultiPolygon", "MultiPolygon", (vec([poly(["a", "b"], [["h"]]), poly([], []), poly(["c"], [["i"]])]),)),
+         ["a", "b", "h", "c", "i"], ["a", "b", "c"]),
+        ("MultiPolygon/0", r"multi_polygon::MultiPolygon<T>$", ("adt", GT + "multi_polygon::MultiPolygon", "MultiPolygon", (vec([]),)), [], []),
+    ]
+    n_ok = 0
+    for key, pat, arg, want_all, want_ext in shapes:
+        got = {}
+        try:
+            for meth in ("coords_iter", "exterior_coords_iter", "coords_count"):
+                fn = F.impl_method(CI, r"^%s%s" % (GT, pat), None, meth, crates=("geo",))
+                ex = Symex(F, concrete_iters=True, loop_bound=12, inline_crates=("geo", "geo_types"), max_depth=14)
+                ex.resolve_by_receiver = True
+                ps = [p for p in ex.run(fn, args=[("&", arg)]) if p.kind != "cut"]
+                if len(ps) != 1 or ps[0].pc or ps[0].kind != "ret":
+                    raise Unanalysable("%s of a concrete %s is not a single value" % (meth, key))
+                if meth == "coords_count":
+                    r = ps[0].ret
+                    if r[0] != "const":
+                        raise Unanalysable("coords_count is not a constant on a concrete shape: %s" % show(r)[:80])
+                    got[meth] = r[1]
+                else:
+                    got[meth] = names(drain(ps[0].ret))
+        except (KeyError, Unanalysable) as e:
+            rep.bad(rule, "traversal:%s:unanalysable" % key, str(e))
+            continue
+        bad = None
+        if got["coords_iter"] != want_all:
+            bad = "coords_iter yields %s, expected %s" % (got["coords_iter"], want_all)
+        elif got["exterior_coords_iter"] != want_ext:
+            bad = "exterior_coords_iter yields %s, expected %s" % (got["exterior_coords_iter"], want_ext)
+        elif got["coords_count"] != len(want_all):
+            bad = "coords_count is %s, coords_iter yields %d coordinates" % (got["coords_count"], len(want_all))
+        if bad:
+            rep.bad(rule, "traversal:%s" % key, "%s: %s" % (key, bad), where=fn.loc())
+        else:
+            n_ok += 1
+            rep.ok(rule, "traversal:%s" % key, sample=got["coords_iter"])
+    rep.floor(rule, "traversal tables", n_ok, len(shapes))
 
 
 def extremes(rep, F):
